@@ -283,6 +283,32 @@ def run(ctx):
                                     pass
                         if i < 2 and variant == "grid":
                             ctx.sample("engine", {"decimals": d, "fll": text[:2500]})
+        # more decimals than a double has significant digits (17, 18, 20): parameters of magnitude >= 0.1 are then written in full,
+        # and the imported engine is the same engine bit for bit
+        for i, rnd in ctx.cases("many decimals", ctx.scale(12, 600)):
+            d = rnd.choice([16, 17, 18, 20])
+            with fl.settings.context(decimals=d):
+                spec = E.gen_engine(rnd, activations=("General",), d=3, flags=False, max_rules=3, kinds=("integral", "ts", "tsukamoto"))
+                spec["decimals"] = d
+                factor = {}
+                for v in spec["inputs"] + spec["outputs"]:
+                    for t in v["terms"]:
+                        if t["cls"] == "Function":
+                            continue
+                        # the same factor for equal values, so that coinciding vertices keep coinciding
+                        t["params"] = [p * factor.setdefault(p, 1.0 + rnd.uniform(-1e-9, 1e-9)) if (math.isfinite(p) and abs(p) >= 0.1) else p for p in t["params"]]
+                for rb in spec["blocks"]:
+                    for r in rb["rules"]:
+                        if r["weight"] != 1.0:
+                            r["text"] = r["text"].split(" with ")[0] + f" with {r['weight']:.{d}f}"
+                try:
+                    engine = E.build(fl, spec)
+                    text = fl.FllExporter().to_string(engine)  # judged by the monitor
+                except Exception as ex:
+                    ctx.hit(f"inconclusive:generated engine does not build: {type(ex).__name__}: {str(ex)[:60]}")
+                    continue
+                ctx.hit("workload:more decimals than significant digits")
+                same_outputs(ctx, fl, rnd, spec, engine, text)
         # output variables whose defuzzifiers are written with the same text (`WeightedAverage`, type Automatic) over terms of
         # different kinds: the imported engine has to tell them apart as the original does
         for i, rnd in ctx.cases("same defuzzifier text", ctx.scale(25, 1500)):
@@ -319,7 +345,7 @@ def run(ctx):
         probe.report(ctx)
         ctx.extra["printer_parser_pairs_with_values"] = sorted(f"{c}.{n}" for c, n in mon.pairs)
         reach.report(ctx)
-    ctx.require("workload:a rule was given a text that the parser rejected", "workload:output variables sharing one defuzzifier text")
+    ctx.require("workload:a rule was given a text that the parser rejected", "workload:output variables sharing one defuzzifier text", "workload:more decimals than significant digits")
     ctx.require("hook:FllExporter.engine", "entry:str", "entry:file", "entry:separator", "entry:Op.to_fll", "hook:FllImporter.from_string", "compare:text fixed point", "compare:structure", "compare:normalisation fixed point", "compare:identical outputs", "event:import accepted", "event:re-export after a weight change", "event:re-export under other decimals", "workload:exotic configuration")
     for d in decs:
         ctx.require(f"decimals:{d}")
